@@ -210,67 +210,61 @@ func c03R1(p *core.Prog, r *core.Report, trav *ssa.Function) {
 
 func c03R2(p *core.Prog, r *core.Report, trav *ssa.Function) {
 	const rule = "C03.R2"
-	r.Rule(rule, "only one way to succeed without writing: every `return nil` of the traversal other than its last statement is inside a branch whose condition compares the source digest with the target manifest's digest", 1)
-	syn := p.Syntax(trav)
-	if syn == nil || syn.Decl == nil {
-		r.MissingAnchor(rule, "syntax of the copy traversal")
-		return
-	}
+	r.Rule(rule, "only one way to succeed without writing: every path of the traversal that returns success without having called ManifestPut passes the edge on which the source digest equals the digest of the target's manifest", 1)
 	name := p.FuncName(trav)
-	body := syn.Decl.Body
-	lastStmt := body.List[len(body.List)-1]
-	var stack []ast.Node
+	isPut := func(in ssa.Instruction) bool {
+		c, ok := in.(ssa.CallInstruction)
+		if !ok {
+			return false
+		}
+		cal := core.Callee(c)
+		return cal != nil && core.IsModMethod(cal, ".", "RegClient", "ManifestPut")
+	}
+	fromDesc := func(v ssa.Value) bool {
+		for _, o := range core.Origins(v, core.SliceOpts{FieldsThrough: true}) {
+			if o.Kind == core.OCall && o.Call.Call.IsInvoke() && o.Call.Call.Method.Name() == "GetDescriptor" {
+				return true
+			}
+		}
+		return false
+	}
+	equalEdge := func(from, to *ssa.BasicBlock) bool {
+		ifi, ok := core.LastInstr(from).(*ssa.If)
+		if !ok {
+			return false
+		}
+		cnd, pol := core.StripNot(ifi.Cond, true)
+		bo, ok := cnd.(*ssa.BinOp)
+		if !ok || (bo.Op != token.EQL && bo.Op != token.NEQ) || !isDigestType(bo.X.Type()) {
+			return false
+		}
+		if !fromDesc(bo.X) && !fromDesc(bo.Y) {
+			return false
+		}
+		// the edge on which the digests are equal
+		eq := bo.Op == token.EQL
+		if eq == pol {
+			return to == from.Succs[0]
+		}
+		return to == from.Succs[1]
+	}
+	seen := core.Reach{Stop: isPut, StopEdge: equalEdge}.FromEntry(trav)
 	lab := labeler{}
 	n := 0
-	ast.Inspect(body, func(x ast.Node) bool {
-		if x == nil {
-			stack = stack[:len(stack)-1]
-			return true
+	for _, ret := range core.Returns(trav) {
+		last := len(ret.Results) - 1
+		if last < 0 {
+			continue
 		}
-		if _, isLit := x.(*ast.FuncLit); isLit {
-			stack = append(stack, x)
-			return true
-		}
-		stack = append(stack, x)
-		ret, ok := x.(*ast.ReturnStmt)
-		if !ok || len(ret.Results) != 1 {
-			return true
-		}
-		if id, isId := ret.Results[0].(*ast.Ident); !isId || id.Name != "nil" {
-			return true
-		}
-		// inside a function literal: not a return of the traversal
-		for _, s := range stack {
-			if _, isLit := s.(*ast.FuncLit); isLit {
-				return true
-			}
-		}
-		if ast.Stmt(ret) == lastStmt {
-			return true
+		v := core.ReturnOperand(ret, last)
+		if !core.IsNilConst(v) {
+			continue
 		}
 		n++
-		ok2 := false
-		for _, s := range stack {
-			is, isIf := s.(*ast.IfStmt)
-			if !isIf {
-				continue
-			}
-			ast.Inspect(is.Cond, func(y ast.Node) bool {
-				be, isBE := y.(*ast.BinaryExpr)
-				if !isBE || be.Op != token.EQL {
-					return true
-				}
-				if strings.Contains(types.ExprString(be.Y), "GetDescriptor().Digest") || strings.Contains(types.ExprString(be.X), "GetDescriptor().Digest") {
-					ok2 = true
-				}
-				return true
-			})
-		}
-		r.Check(ok2, rule, name, lab.next("early success return"), p.Pos(ret.Pos()), "an early `return nil` must be justified by the target manifest already having the source digest; any other early success leaves the target incomplete")
-		return true
-	})
+		r.Check(!seen[ret], rule, name, lab.next("success return without a manifest write"), p.Pos(ret.Pos()), "a success return that is reached without ManifestPut must lie behind the 'target already has this digest' edge; any other such return leaves the target incomplete")
+	}
 	if n == 0 {
-		r.Held(rule, name, "early success return", p.Pos(body.Pos()), "no early success return")
+		r.Undecided(rule, name, "success return", p.Pos(trav.Pos()), "the traversal has no `return nil`")
 	}
 }
 
